@@ -5,6 +5,7 @@ package hist
 
 import (
 	"fmt"
+	decodepay "github.com/nbd-wtf/ln-decodepay"
 	"math/big"
 	"sort"
 	"strings"
@@ -409,7 +410,9 @@ func (m *Machine) opPay(t *rapid.T) bool {
 // tokens right afterwards must leave it unpaid - the model's issued-more-than-paid and ledger oracles judge that.
 func (m *Machine) opCancelInvoice(t *rapid.T) bool {
 	w := m.W
-	q := m.pickMintQuote(t, func(q *world.MMintQuote) bool { return !q.PaidExt && q.Internal == 0 && q.Issuances == 0 && q.LockPriv == nil })
+	q := m.pickMintQuote(t, func(q *world.MMintQuote) bool {
+		return !q.PaidExt && q.Internal == 0 && q.Issuances == 0 && q.LockPriv == nil
+	})
 	if q == nil {
 		return false
 	}
@@ -1552,7 +1555,17 @@ func (m *Machine) opMeltQuoteBoundary(t *rapid.T) bool {
 	if rapid.Bool().Draw(t, "meltb_submsat") {
 		msat -= rapid.Uint64Range(1, 999).Draw(t, "meltb_sub")
 	}
+	if rapid.IntRange(0, 3).Draw(t, "meltb_huge") == 0 {
+		// invoices anybody can write: amounts at the top of the 64-bit range (rounding up to whole sats must not wrap)
+		// (multiples of 100 msat: BOLT11 writes those in nano-bitcoin; the encoder's pico-bitcoin path wraps up there)
+		msat = rapid.SampledFrom([]uint64{1<<64 - 16, 1<<64 - 116, 1<<64 - 616, 1<<64 - 916, 1<<64 - 1016, 1<<64 - 1616, 1<<63 + 92, 1<<63 - 8, 1<<63 - 808}).Draw(t, "meltb_huge_msat")
+		m.Count["boundary_request_huge_melt"]++
+	}
 	inv := w.Net.ExternalInvoice(msat)
+	if d, err := decodepay.Decodepay(inv.Request); err != nil || uint64(d.MSatoshi) != msat {
+		// the invoice does not say what was asked for (encoder limits): not a case
+		return false
+	}
 	_, err := w.RequestMeltQuote(inv.Request, 0)
 	m.Count["boundary_request"]++
 	m.logf("boundary melt quote %d msat (melt max %d): err=%v", msat, x, err)
